@@ -38,6 +38,7 @@ unsigned long verif_nondet_ulong(void) { return nextv(); }
 unsigned char verif_nondet_uchar(void) { return (unsigned char)nextv(); }
 void verif_assume(int c) { if (!c) { std::printf("ASSUMPTION-VIOLATED\n"); std::fflush(stdout); std::_Exit(3); } }
 void verif_assert(int c, char const *id) { if (!c) { std::printf("ASSERTION FAILED: %s\n", id); std::fflush(stdout); std::_Exit(1); } }
+unsigned verif_lock_depth(void) { return 0; }
 void verif_reach(void) { std::printf("REACHED\n"); }
 int verif_str_eq(char const *a, char const *b) { return a == b || (a && b && std::strcmp(a, b) == 0); }
 int verif_msg_has(char const *hay, char const *needle) { return hay && needle && std::strstr(hay, needle) != nullptr; }
